@@ -5,7 +5,7 @@
 (* and the thread's coroutine queue (coro_queue.h) -- sequential histories *)
 (* at the grain of the public calls.  One action per call of the client:   *)
 (*                                                                         *)
-(*   Emit(form)      collector::operator()          signal.h:96-139        *)
+(*   Emit(s,form)    collector::operator()          signal.h:96-139        *)
 (*                   (value written, chain.exchange(nullptr), walk:        *)
 (*                    coroutine handles go to the returned suspend point,  *)
 (*                    connected callbacks run *inside* the walk and        *)
@@ -22,12 +22,17 @@
 (*                   (emitter::await_suspend, signal.h:192-201: subscribes *)
 (*                   if weak_ptr::lock succeeds, else resumes at once and  *)
 (*                   await_resume throws await_canceled_exception :216)    *)
+(*   Rebind          the emitter OBJECT a listener awaits is constructed / *)
+(*                   assigned from another emitter (signal.h:173-185)      *)
 (*   Connect         signal::connect(fn)  signal.h:261-312 (new Awt;       *)
 (*                   initial_reg subscribes)                               *)
-(*   CopyHandle / DropHandle / StateDtor   copies and destruction of       *)
-(*                   signal / collector objects (strong references);       *)
-(*                   StateDtor = destruction of the last one = ~state      *)
-(*                   (signal.h:47-50): _cur_val = nullptr, chain released  *)
+(*   ConnectDead     the same on a signal object that carries no state     *)
+(*                   (initial_reg :302-304 -> resume :277-279 delete this) *)
+(*   CopyHandle / MoveHandle / DropHandle / StateDtor   copies, moves and  *)
+(*                   destruction of signal / collector objects (strong     *)
+(*                   references); StateDtor = destruction of the last one  *)
+(*                   = ~state (signal.h:47-50): _cur_val = nullptr, chain  *)
+(*                   released                                              *)
 (*   EndScope        the variable passed to the lvalue-reference form of   *)
 (*                   the collector goes out of scope                       *)
 (*                                                                         *)
@@ -40,7 +45,17 @@
 (* Callbacks: CbT always returns true, CbOnce returns true on its first    *)
 (* call only, CbF returns false on the first call.                         *)
 (*                                                                         *)
-(* Values are numbered 1,2,3.. in emit order (0 for signal<void>).         *)
+(* Several signal objects (Sigs) live side by side; every coroutine        *)
+(* listener owns ONE emitter object, which it awaits again and again and   *)
+(* which the history re-binds while the listener is not suspended on it:   *)
+(* bind[l] is the signal the emitter's weak reference designates (NOBIND:  *)
+(* a default-constructed emitter / one obtained from a signal object       *)
+(* without state).  The emitter has no other state of its own (signal.h    *)
+(* :219-221): after a re-binding it behaves exactly like a fresh emitter   *)
+(* of the source's signal, whatever it has seen before.                    *)
+(*                                                                         *)
+(* Values are numbered 1,2,3.. in emit order over all signals (0 for       *)
+(* signal<void>, and 0 = T{} for the argument-less call on signal<T>).     *)
 (* Strict = TRUE restricts the history generator to the discipline under   *)
 (* which the implementation promises delivery of *every* value             *)
 (* (signal.h:131-133,156-160; suspend_point.h:27-30): between two collector*)
@@ -61,18 +76,30 @@
 (* Listeners subscribing on another thread than the collector: see the     *)
 (* companion module SignalConc.tla (atomic-operation grain on _chain).     *)
 (* Configurations: Signal_seq.cfg (Strict), Signal_free.cfg (all           *)
-(* histories); tools/checks/c15.py derives its runs from Signal_base.cfg.  *)
+(* histories), Signal_hook.cfg, Signal_rebind.cfg (two signals, emitter    *)
+(* objects re-bound); tools/checks/c15.py derives its runs from            *)
+(* Signal_base.cfg.                                                        *)
 (***************************************************************************)
 EXTENDS Integers, Sequences, FiniteSets, TLC
 
 CONSTANTS Loop, Gated,          \* coroutine listeners
           CbT, CbOnce, CbF,     \* connected callbacks
-          Forms,                \* subset of {"inplace","rvalue","lvalue"}, or {"void"} for signal<void>
+          Forms,                \* call forms of the collector: subset of {"inplace","inplace2","rvalue","lvalue","default"},
+                                \*   or {"void"} for signal<void>
           MaxEmit, MaxHandles,
           CoroMode,             \* TRUE: the history runs inside a coroutine (coro_queue active)
           Strict,
           Hooked,               \* {} or {h}, h \in Loop \cup Gated: h awaits a hook_up() emitter, which creates the signal
-          RegEmit               \* how many values the registration function of hook_up may emit before it returns
+          RegEmit,              \* how many values the registration function of hook_up may emit before it returns
+          Sigs,                 \* the signal objects: 1..n
+          Rebinds,              \* forms of re-binding an emitter object: subset of {"cctor","mctor","cassign","massign"}
+          Rebound,              \* the listeners whose emitter object is re-bound (the others' emitters are sources only)
+          MaxCancel,            \* how often a listener goes on awaiting an emitter after it has thrown
+          Shells                \* TRUE: signal objects without state (moved-from) are used too
+
+ASSUME Sigs = 1..Cardinality(Sigs) /\ Sigs # {}
+ASSUME Hooked # {} => (Sigs = {1} /\ Rebinds = {})
+ASSUME Rebound \subseteq Loop \cup Gated
 
 Coros == Loop \cup Gated
 Cbs == CbT \cup CbOnce \cup CbF
@@ -81,23 +108,26 @@ Void == Forms = {"void"}
 
 CANCEL == -1      \* await_canceled_exception
 POISON == -9      \* content of a variable whose life time has ended
+NOBIND == 0       \* an emitter whose weak reference is empty
 
 VARIABLES
-    refs,      \* number of live signal/collector objects = use_count of the shared state; 0: state destroyed
-    chain,     \* state::_chain as the sequence of subscribed awaiters, top of the stack first
-    cur,       \* state::_cur_val: "null" | "storage" | "caller"
-    stor,      \* state::_value_storage: [has, v]
-    cvar,      \* the caller's variable last passed by lvalue reference (0: none yet, POISON: dead)
+    refs,      \* per signal: number of live signal/collector objects = use_count of the shared state; 0: state destroyed
+    chain,     \* per signal: state::_chain as the sequence of subscribed awaiters, top of the stack first
+    cur,       \* per signal: state::_cur_val: "null" | "storage" | "caller"
+    stor,      \* per signal: state::_value_storage: [has, v]
+    cvar,      \* per signal: the caller's variable last passed by lvalue reference (0: none yet, POISON: dead)
     held,      \* a suspend point returned by the collector has not been released yet
     sp,        \* coroutine handles carried by that suspend point, array order
     queue,     \* coro_queue of the thread (coroutine mode): released listeners not yet resumed
     st,        \* per listener: "new" | "gate" | "waiting" | "released" | "done" | "freed"
+    bind,      \* per listener: the signal its emitter object (its connect() node) is bound to, NOBIND for none
     received,  \* per listener: values seen by `co_await emitter` / the callback, CANCEL for the exception
     due,       \* ghost: what the property promises to the listener (see Emit, StateDtor, ListenerAwait)
     since,     \* ghost: number of emits before a Loop listener first subscribed
+    elog,      \* ghost: the emissions so far, [s |-> signal, v |-> value]
     nemit
 
-vars == <<refs, chain, cur, stor, cvar, held, sp, queue, st, received, due, since, nemit>>
+vars == <<refs, chain, cur, stor, cvar, held, sp, queue, st, bind, received, due, since, elog, nemit>>
 
 Val(n) == IF Void THEN 0 ELSE n
 NoStor == [has |-> FALSE, v |-> 0]
@@ -106,23 +136,26 @@ NoStor == [has |-> FALSE, v |-> 0]
 Born == Hooked = {} \/ \E h \in Hooked : st[h] # "new"
 
 Init ==
-    /\ refs = IF Hooked = {} THEN 1 ELSE 0
-    /\ chain = <<>>
-    /\ cur = "null"
-    /\ stor = NoStor
-    /\ cvar = 0
+    /\ refs = [s \in Sigs |-> IF Hooked = {} THEN 1 ELSE 0]
+    /\ chain = [s \in Sigs |-> <<>>]
+    /\ cur = [s \in Sigs |-> "null"]
+    /\ stor = [s \in Sigs |-> NoStor]
+    /\ cvar = [s \in Sigs |-> 0]
     /\ held = FALSE
     /\ sp = <<>>
     /\ queue = <<>>
     /\ st = [l \in Listeners |-> "new"]
+    /\ bind = [l \in Listeners |-> IF l \in Coros THEN 1 ELSE NOBIND]   \* `emitter e = s1.get_emitter()`
     /\ received = [l \in Listeners |-> <<>>]
     /\ due = [l \in Listeners |-> <<>>]
     /\ since = [l \in Listeners |-> 0]
+    /\ elog = <<>>
     /\ nemit = 0
 
 Count(s, x) == Cardinality({i \in 1..Len(s) : s[i] = x})
 Front(s) == SubSeq(s, 1, Len(s) - 1)
 Last(s) == s[Len(s)]
+Range(s) == {s[i] : i \in 1..Len(s)}
 Pending == sp # <<>> \/ queue # <<>>       \* some listener is released but has not run yet
 
 -----------------------------------------------------------------------------
@@ -132,24 +165,29 @@ ReadVal(alive, c, s, cv) ==
     IF ~alive \/ c = "null" THEN CANCEL
     ELSE IF c = "storage" THEN s.v ELSE cv
 
+(* what each listener's await_resume yields if it runs now: it reads through the weak reference of its own emitter *)
+GotNow == [l \in Listeners |-> IF bind[l] = NOBIND THEN CANCEL
+                                 ELSE ReadVal(refs[bind[l]] > 0, cur[bind[l]], stor[bind[l]], cvar[bind[l]])]
+AllCancel == [l \in Listeners |-> CANCEL]
+
 (* a released coroutine listener is resumed: await_resume, then its own code.
-   W = [chain, st, received] *)
+   W = [chain (per signal), st, received] *)
 ResumeOne(W, l, got) ==
     LET W1 == [W EXCEPT !.received[l] = Append(@, got)]
     IN  IF l \in Loop
           THEN IF got = CANCEL
                  THEN [W1 EXCEPT !.st[l] = "done"]
                  (* `co_await emitter` again: await_suspend subscribes (awaiter::subscribe, push on top) *)
-                 ELSE [W1 EXCEPT !.st[l] = "waiting", !.chain = <<l>> \o @]
+                 ELSE [W1 EXCEPT !.st[l] = "waiting", !.chain[bind[l]] = <<l>> \o @]
           ELSE [W1 EXCEPT !.st[l] = "gate"]
 
 RECURSIVE RunAll(_, _, _)
-RunAll(W, ls, got) == IF ls = <<>> THEN W ELSE RunAll(ResumeOne(W, Head(ls), got), Tail(ls), got)
+RunAll(W, ls, gotf) == IF ls = <<>> THEN W ELSE RunAll(ResumeOne(W, Head(ls), gotf[Head(ls)]), Tail(ls), gotf)
 
-(* awaiter::resume_chain_lk (awaiter.h:102-111) on the detached chain `nodes` while a value is being
+(* awaiter::resume_chain_lk (awaiter.h:102-111) on the detached chain `nodes` of one signal while a value is being
    emitted: coroutine -> handle appended to the suspend point; connected callback -> Awt::resume
    (signal.h:275-296) runs now: calls fn(value); true: subscribes itself again, false: delete this.
-   W = [chain, st, received, sp] *)
+   W = [chain (of that signal), st, received, sp] *)
 RECURSIVE WalkEmit(_, _, _)
 WalkEmit(W, nodes, got) ==
     IF nodes = <<>> THEN W
@@ -177,19 +215,34 @@ WalkDtor(W, nodes) ==
 ListenerAwait(l) ==
     /\ l \in Coros /\ st[l] \in {"new", "gate"}
     /\ Born /\ ~(l \in Hooked /\ st[l] = "new")
-    /\ IF refs > 0
-         THEN /\ chain' = <<l>> \o chain
+    /\ IF bind[l] # NOBIND /\ refs[bind[l]] > 0
+         THEN /\ chain' = [chain EXCEPT ![bind[l]] = <<l>> \o @]
               /\ st' = [st EXCEPT ![l] = "waiting"]
               /\ since' = IF st[l] = "new" THEN [since EXCEPT ![l] = nemit] ELSE since
               /\ UNCHANGED <<received, due>>
          ELSE (* disconnected: await_suspend returns false, await_resume throws *)
-              /\ Count(received[l], CANCEL) < 2
+              /\ Count(received[l], CANCEL) < MaxCancel
               /\ received' = [received EXCEPT ![l] = Append(@, CANCEL)]
               /\ due' = [due EXCEPT ![l] = Append(@, CANCEL)]
               /\ st' = [st EXCEPT ![l] = IF l \in Loop THEN "done" ELSE "gate"]
               /\ since' = IF st[l] = "new" THEN [since EXCEPT ![l] = nemit] ELSE since
               /\ UNCHANGED chain
-    /\ UNCHANGED <<refs, cur, stor, cvar, held, sp, queue, nemit>>
+    /\ UNCHANGED <<refs, cur, stor, cvar, held, sp, queue, bind, elog, nemit>>
+
+(* The emitter object of listener l is constructed anew / assigned while l is not suspended on it
+   (signal.h:173-185): "cctor" emitter(const emitter &) :177, "mctor" emitter(emitter &&) :178,
+   "cassign" the hand-written operator=(const emitter &) :179-184, "massign" operator=(emitter &&) :185.
+   The source is: an emitter of signal src (an lvalue kept since the signal was created, or a fresh
+   `sig.get_emitter()`; the replayer varies it), the empty emitter (NOBIND: `emitter()` :173 or get_emitter() :232
+   of a signal object without state), or -- copy forms -- the emitter object of ANOTHER listener, which may be
+   subscribed at that moment (only its weak reference is read).
+   A Loop listener leaves its loop after the exception, so only its first binding matters. *)
+Rebind(l, how, src) ==
+    /\ how \in Rebinds /\ l \in Rebound /\ l \notin Hooked /\ Born
+    /\ st[l] \in (IF l \in Loop THEN {"new"} ELSE {"new", "gate"})
+    /\ src \in Coros => (src # l /\ how \in {"cctor", "cassign"})
+    /\ bind' = [bind EXCEPT ![l] = IF src \in Coros THEN bind[src] ELSE src]
+    /\ UNCHANGED <<refs, chain, cur, stor, cvar, held, sp, queue, st, received, due, since, elog, nemit>>
 
 (* The first `co_await` on the object returned by signal::hook_up(fn), hook_up_emitter::await_suspend
    (signal.h:331-339): a new signal is created, the coroutine is SUBSCRIBED (emitter::await_suspend), and only
@@ -213,149 +266,178 @@ HookUp(l, mode, n) ==
            lastv == Val(nemit + n)
            rel == n > 0 \/ ~alive          \* released by the first registration emit, else by ~state
            got == IF alive THEN lastv ELSE CANCEL
-       IN  /\ refs' = IF alive THEN 1 ELSE 0
-           /\ cur' = IF alive /\ n > 0 THEN "storage" ELSE "null"
-           /\ stor' = IF alive /\ n > 0 THEN [has |-> TRUE, v |-> lastv] ELSE NoStor
+       IN  /\ refs' = [refs EXCEPT ![1] = IF alive THEN 1 ELSE 0]
+           /\ cur' = [cur EXCEPT ![1] = IF alive /\ n > 0 THEN "storage" ELSE "null"]
+           /\ stor' = [stor EXCEPT ![1] = IF alive /\ n > 0 THEN [has |-> TRUE, v |-> lastv] ELSE NoStor]
            /\ due' = [due EXCEPT ![l] = IF n > 0 THEN <<Val(nemit + 1)>> ELSE IF alive THEN <<>> ELSE <<CANCEL>>]
            /\ IF ~rel
-                THEN chain' = <<l>> /\ st' = [st EXCEPT ![l] = "waiting"] /\ UNCHANGED <<received, queue>>
+                THEN chain' = [chain EXCEPT ![1] = <<l>>] /\ st' = [st EXCEPT ![l] = "waiting"] /\ UNCHANGED <<received, queue>>
                 ELSE IF CoroMode
                   THEN /\ queue' = queue \o <<l>> /\ st' = [st EXCEPT ![l] = "released"]
-                       /\ chain' = <<>> /\ UNCHANGED received
-                  ELSE LET W == ResumeOne([chain |-> <<>>, st |-> st, received |-> received], l, got)
+                       /\ chain' = [chain EXCEPT ![1] = <<>>] /\ UNCHANGED received
+                  ELSE LET W == ResumeOne([chain |-> [chain EXCEPT ![1] = <<>>], st |-> st, received |-> received], l, got)
                        IN  chain' = W.chain /\ st' = W.st /\ received' = W.received /\ UNCHANGED queue
     /\ since' = [since EXCEPT ![l] = nemit]
+    /\ elog' = elog \o [i \in 1..n |-> [s |-> 1, v |-> Val(nemit + i)]]
     /\ nemit' = nemit + n
-    /\ UNCHANGED <<cvar, held, sp>>
+    /\ UNCHANGED <<cvar, held, sp, bind>>
 
-(* signal::connect needs a signal object, hence a live state *)
-Connect(c) ==
-    /\ c \in Cbs /\ st[c] = "new" /\ refs > 0
-    /\ chain' = <<c>> \o chain
+(* signal::connect on a signal object of signal s (a live state) *)
+Connect(c, s) ==
+    /\ c \in Cbs /\ st[c] = "new" /\ refs[s] > 0
+    /\ chain' = [chain EXCEPT ![s] = <<c>> \o @]
     /\ st' = [st EXCEPT ![c] = "waiting"]
-    /\ UNCHANGED <<refs, cur, stor, cvar, held, sp, queue, received, due, since, nemit>>
+    /\ bind' = [bind EXCEPT ![c] = s]
+    /\ UNCHANGED <<refs, cur, stor, cvar, held, sp, queue, received, due, since, elog, nemit>>
 
-Emit(form) ==
-    /\ refs > 0 /\ nemit < MaxEmit /\ ~held
+(* signal::connect on a signal object that carries no state (moved-from, or made from such a collector):
+   `new Awt` with an empty weak reference; initial_reg (signal.h:298-305) cannot lock it and calls resume(),
+   whose no-state branch (:277-279) deletes the object: the callable is never called and is destroyed now *)
+ConnectDead(c) ==
+    /\ Shells /\ c \in Cbs /\ st[c] = "new"
+    /\ st' = [st EXCEPT ![c] = "freed"]
+    /\ UNCHANGED <<refs, chain, cur, stor, cvar, held, sp, queue, bind, received, due, since, elog, nemit>>
+
+(* v: the value the call passes: the next number; T{} = 0 for the argument-less call ("default") *)
+Emit(s, form) ==
+    /\ refs[s] > 0 /\ nemit < MaxEmit /\ ~held
     /\ Strict => queue = <<>>
-    /\ LET v == Val(nemit + 1)
+    /\ LET v == IF form = "default" THEN 0 ELSE Val(nemit + 1)
            cur1 == IF form = "lvalue" THEN "caller" ELSE "storage"
-           stor1 == IF form = "lvalue" THEN stor ELSE [has |-> TRUE, v |-> v]
-           cvar1 == IF form = "lvalue" THEN v ELSE cvar
+           stor1 == IF form = "lvalue" THEN stor[s] ELSE [has |-> TRUE, v |-> v]
+           cvar1 == IF form = "lvalue" THEN v ELSE cvar[s]
            got == ReadVal(TRUE, cur1, stor1, cvar1)
-           W == WalkEmit([chain |-> <<>>, st |-> st, received |-> received, sp |-> <<>>], chain, got)
-       IN  /\ cur' = cur1 /\ stor' = stor1 /\ cvar' = cvar1
-           /\ chain' = W.chain /\ st' = W.st /\ received' = W.received /\ sp' = W.sp
-           /\ due' = [l \in Listeners |-> IF \E i \in 1..Len(chain) : chain[i] = l THEN Append(due[l], v) ELSE due[l]]
+           W == WalkEmit([chain |-> <<>>, st |-> st, received |-> received, sp |-> <<>>], chain[s], got)
+       IN  /\ cur' = [cur EXCEPT ![s] = cur1] /\ stor' = [stor EXCEPT ![s] = stor1] /\ cvar' = [cvar EXCEPT ![s] = cvar1]
+           /\ chain' = [chain EXCEPT ![s] = W.chain] /\ st' = W.st /\ received' = W.received /\ sp' = W.sp
+           /\ due' = [l \in Listeners |-> IF l \in Range(chain[s]) THEN Append(due[l], v) ELSE due[l]]
+           /\ elog' = Append(elog, [s |-> s, v |-> v])
     /\ held' = TRUE
     /\ nemit' = nemit + 1
-    /\ UNCHANGED <<refs, queue, since>>
+    /\ UNCHANGED <<refs, queue, since, bind>>
 
 ReleaseSP(how) ==
     /\ held
     /\ how = "await" => CoroMode
-    /\ LET got == ReadVal(refs > 0, cur, stor, cvar)
-           W0 == [chain |-> chain, st |-> st, received |-> received]
+    /\ LET W0 == [chain |-> chain, st |-> st, received |-> received]
        IN  IF how = "discard" /\ CoroMode
              THEN /\ queue' = queue \o sp
                   /\ UNCHANGED <<chain, st, received>>
              ELSE LET order == IF how = "discard" \/ sp = <<>> THEN sp
                                ELSE <<Last(sp)>> \o queue \o Front(sp)
-                      W == RunAll(W0, order, got)
+                      W == RunAll(W0, order, GotNow)
                   IN  /\ chain' = W.chain /\ st' = W.st /\ received' = W.received
                       /\ queue' = IF how = "await" /\ sp # <<>> THEN <<>> ELSE queue
     /\ held' = FALSE
     /\ sp' = <<>>
-    /\ UNCHANGED <<refs, cur, stor, cvar, due, since, nemit>>
+    /\ UNCHANGED <<refs, cur, stor, cvar, bind, due, since, elog, nemit>>
 
 Yield ==
     /\ CoroMode /\ queue # <<>>
-    /\ LET W == RunAll([chain |-> chain, st |-> st, received |-> received], queue, ReadVal(refs > 0, cur, stor, cvar))
+    /\ LET W == RunAll([chain |-> chain, st |-> st, received |-> received], queue, GotNow)
        IN  chain' = W.chain /\ st' = W.st /\ received' = W.received
     /\ queue' = <<>>
-    /\ UNCHANGED <<refs, cur, stor, cvar, held, sp, due, since, nemit>>
+    /\ UNCHANGED <<refs, cur, stor, cvar, held, sp, bind, due, since, elog, nemit>>
 
-CopyHandle ==
-    /\ refs > 0 /\ refs < MaxHandles
-    /\ refs' = refs + 1
-    /\ UNCHANGED <<chain, cur, stor, cvar, held, sp, queue, st, received, due, since, nemit>>
+CopyHandle(s) ==
+    /\ refs[s] > 0 /\ refs[s] < MaxHandles
+    /\ refs' = [refs EXCEPT ![s] = @ + 1]
+    /\ UNCHANGED <<chain, cur, stor, cvar, held, sp, queue, st, bind, received, due, since, elog, nemit>>
 
-DropHandle ==
-    /\ refs > 1
-    /\ refs' = refs - 1
-    /\ UNCHANGED <<chain, cur, stor, cvar, held, sp, queue, st, received, due, since, nemit>>
+(* a signal / collector object is moved to a new object (the defaulted move operations of signal and collector:
+   the shared_ptr is moved): the use count stays, the source becomes an object without state *)
+MoveHandle(s) ==
+    /\ Shells /\ refs[s] > 0
+    /\ UNCHANGED vars
 
-(* the last signal/collector object is destroyed: ~state *)
-StateDtor ==
-    /\ refs = 1
+DropHandle(s) ==
+    /\ refs[s] > 1
+    /\ refs' = [refs EXCEPT ![s] = @ - 1]
+    /\ UNCHANGED <<chain, cur, stor, cvar, held, sp, queue, st, bind, received, due, since, elog, nemit>>
+
+(* the last signal/collector object of signal s is destroyed: ~state *)
+StateDtor(s) ==
+    /\ refs[s] = 1
     /\ Strict => ~Pending
-    /\ refs' = 0
-    /\ cur' = "null"
-    /\ stor' = NoStor
-    /\ LET W == WalkDtor([st |-> st, sp |-> <<>>], chain)
-           W0 == [chain |-> <<>>, st |-> W.st, received |-> received]
-       IN  /\ due' = [l \in Listeners |-> IF l \in Coros /\ \E i \in 1..Len(chain) : chain[i] = l
-                                            THEN Append(due[l], CANCEL) ELSE due[l]]
+    /\ refs' = [refs EXCEPT ![s] = 0]
+    /\ cur' = [cur EXCEPT ![s] = "null"]
+    /\ stor' = [stor EXCEPT ![s] = NoStor]
+    /\ LET W == WalkDtor([st |-> st, sp |-> <<>>], chain[s])
+           W0 == [chain |-> [chain EXCEPT ![s] = <<>>], st |-> W.st, received |-> received]
+       IN  /\ due' = [l \in Listeners |-> IF l \in Coros /\ l \in Range(chain[s]) THEN Append(due[l], CANCEL) ELSE due[l]]
            /\ IF CoroMode
                 THEN /\ queue' = queue \o W.sp
-                     /\ st' = W.st /\ chain' = <<>> /\ UNCHANGED received
-                ELSE LET R == RunAll(W0, W.sp, CANCEL)
+                     /\ st' = W.st /\ chain' = W0.chain /\ UNCHANGED received
+                ELSE LET R == RunAll(W0, W.sp, AllCancel)
                      IN  /\ st' = R.st /\ chain' = R.chain /\ received' = R.received
                          /\ UNCHANGED queue
-    /\ UNCHANGED <<cvar, held, sp, since, nemit>>
+    /\ UNCHANGED <<cvar, held, sp, bind, since, elog, nemit>>
 
-EndScope ==
-    /\ cvar \notin {0, POISON}
-    /\ Strict => (~Pending \/ cur # "caller")
-    /\ cvar' = POISON
-    /\ UNCHANGED <<refs, chain, cur, stor, held, sp, queue, st, received, due, since, nemit>>
+EndScope(s) ==
+    /\ cvar[s] \notin {0, POISON}
+    /\ Strict => (~Pending \/ cur[s] # "caller")
+    /\ cvar' = [cvar EXCEPT ![s] = POISON]
+    /\ UNCHANGED <<refs, chain, cur, stor, held, sp, queue, st, bind, received, due, since, elog, nemit>>
 
-Next == \/ \E l \in Coros : ListenerAwait(l)
-        \/ \E l \in Hooked, m \in {"store", "drop"}, n \in 0..RegEmit : HookUp(l, m, n)
-        \/ \E c \in Cbs : Connect(c)
-        \/ \E f \in Forms : Emit(f)
-        \/ \E h \in {"discard", "await"} : ReleaseSP(h)
-        \/ Yield \/ CopyHandle \/ DropHandle \/ StateDtor \/ EndScope
+(* everything except the re-binding of emitter objects, which is possible for ever *)
+NextCore == \/ \E l \in Coros : ListenerAwait(l)
+            \/ \E l \in Hooked, m \in {"store", "drop"}, n \in 0..RegEmit : HookUp(l, m, n)
+            \/ \E c \in Cbs, s \in Sigs : Connect(c, s)
+            \/ \E c \in Cbs : ConnectDead(c)
+            \/ \E s \in Sigs, f \in Forms : Emit(s, f)
+            \/ \E h \in {"discard", "await"} : ReleaseSP(h)
+            \/ Yield
+            \/ \E s \in Sigs : CopyHandle(s) \/ MoveHandle(s) \/ DropHandle(s) \/ StateDtor(s) \/ EndScope(s)
+
+Next == \/ NextCore
+        \/ \E l \in Coros, h \in Rebinds, x \in Sigs \cup {NOBIND} \cup Coros : Rebind(l, h, x)
 
 Spec == Init /\ [][Next]_vars
 
 -----------------------------------------------------------------------------
 (* Properties (C15) *)
 
-Range(s) == {s[i] : i \in 1..Len(s)}
 NoDup(s) == \A i, j \in 1..Len(s) : i # j => s[i] # s[j]
+Dead(l) == bind[l] = NOBIND \/ refs[bind[l]] = 0
 
 TypeOK ==
-    /\ refs \in 0..MaxHandles
-    /\ cur \in {"null", "storage", "caller"}
+    /\ \A s \in Sigs : refs[s] \in 0..MaxHandles /\ cur[s] \in {"null", "storage", "caller"}
     /\ \A l \in Listeners : st[l] \in {"new", "gate", "waiting", "released", "done", "freed"}
+    /\ \A l \in Listeners : bind[l] \in Sigs \cup {NOBIND}
     /\ \A c \in Cbs : st[c] \in {"new", "waiting", "freed"}
-    /\ nemit \in 0..MaxEmit
+    /\ nemit \in 0..MaxEmit /\ Len(elog) = nemit
 
-(* a subscribed listener is in the chain exactly once; a released one is in exactly one of the
-   pending suspend point / the coroutine queue; nobody else is anywhere: no listener is lost *)
+(* a subscribed listener is in the chain of the signal it is bound to, exactly once, and in no other chain; a
+   released one is in exactly one of the pending suspend point / the coroutine queue; nobody else is anywhere:
+   no listener is lost *)
 ChainWellFormed ==
-    /\ NoDup(chain) /\ NoDup(sp \o queue)
-    /\ \A l \in Listeners : (st[l] = "waiting") <=> (l \in Range(chain))
+    /\ \A s \in Sigs : NoDup(chain[s])
+    /\ \A s, t \in Sigs : s # t => Range(chain[s]) \cap Range(chain[t]) = {}
+    /\ NoDup(sp \o queue)
+    /\ \A l \in Listeners : (st[l] = "waiting") <=> (bind[l] # NOBIND /\ l \in Range(chain[bind[l]]))
+    /\ \A l \in Listeners, s \in Sigs : l \in Range(chain[s]) => bind[l] = s
     /\ \A l \in Listeners : (st[l] = "released") <=> (l \in Range(sp \o queue))
     /\ ~CoroMode => queue = <<>>
     /\ sp # <<>> => held
 
 (* the state points to a value whenever somebody can be about to read it *)
-CurValid == (refs > 0 /\ nemit > 0) => /\ cur # "null"
-                                       /\ cur = "storage" => stor.has
+CurValid == \A s \in Sigs : (refs[s] > 0 /\ \E i \in 1..Len(elog) : elog[i].s = s) =>
+                               /\ cur[s] # "null"
+                               /\ cur[s] = "storage" => stor[s].has
 
 IsPrefix(a, b) == Len(a) <= Len(b) /\ SubSeq(b, 1, Len(a)) = a
 
 (* AllWaitingGetIt + OncePerEmit: under the discipline, every listener that was subscribed when a
-   value was passed to the collector receives exactly that value, exactly once, in order -- and
-   nothing else; a released listener has exactly its last promised item outstanding *)
+   value was passed to the collector receives exactly that value -- whatever the call form and whatever the
+   forms of the calls before it --, exactly once, in order -- and nothing else; a released listener has
+   exactly its last promised item outstanding *)
 AllWaitingGetIt ==
     Strict => \A l \in Listeners :
                  IF st[l] = "released" THEN received[l] = Front(due[l]) ELSE received[l] = due[l]
 
 (* without the discipline the count is still exact (each release resumes the listener exactly once,
-   never twice, never zero times) and what is read is never an *older* value *)
+   never twice, never zero times) and what is read is never an *older* value (the argument-less call passes
+   T{} = 0, which is not ordered with the numbered values) *)
 OncePerEmit ==
     \A l \in Listeners :
         /\ Len(received[l]) = Len(due[l]) - (IF st[l] = "released" THEN 1 ELSE 0)
@@ -363,41 +445,58 @@ OncePerEmit ==
               \/ received[l][i] = due[l][i]
               \/ received[l][i] \in {CANCEL, POISON}
               \/ (~Void /\ due[l][i] # CANCEL /\ received[l][i] > due[l][i])
+              \/ ("default" \in Forms /\ due[l][i] # CANCEL /\ received[l][i] = 0)
 
 (* no value is read through a pointer to a dead variable *)
 NoDanglingRead == Strict => \A l \in Listeners : POISON \notin Range(received[l])
 
-(* a listener that only re-awaits misses nothing from its first subscription on *)
-Consecutive(a, b) == [i \in 1..(IF b > a THEN b - a ELSE 0) |-> Val(a + i)]
+(* a listener that only re-awaits misses nothing of its signal from its first subscription on *)
+ValuesOf(s, from) == LET x == SelectSeq(SubSeq(elog, from + 1, Len(elog)), LAMBDA e : e.s = s)
+                     IN  [i \in 1..Len(x) |-> x[i].v]
 ReAwaitMissesNone ==
     Strict => \A l \in Loop : st[l] # "new" =>
-        due[l] = Consecutive(since[l], nemit) \o (IF refs = 0 THEN <<CANCEL>> ELSE <<>>)
+        due[l] = IF bind[l] = NOBIND THEN <<CANCEL>>
+                 ELSE ValuesOf(bind[l], since[l]) \o (IF refs[bind[l]] = 0 THEN <<CANCEL>> ELSE <<>>)
 
-(* after the last handle nobody stays subscribed; every listener subscribed at that moment has the
-   cancel exception promised (delivered exactly once by AllWaitingGetIt/OncePerEmit); callbacks are
-   released *)
+(* after the last handle of a signal nobody stays subscribed to it; every listener subscribed at that moment has
+   the cancel exception promised (delivered exactly once by AllWaitingGetIt/OncePerEmit); callbacks are released *)
 DisconnectWakesAll ==
-    refs = 0 => /\ chain = <<>>
-                /\ \A l \in Listeners : st[l] # "waiting"
-                /\ \A c \in Cbs : st[c] \in {"new", "freed"}
-                /\ (~CoroMode /\ ~held) => \A l \in Coros : st[l] # "released"
+    /\ \A s \in Sigs : refs[s] = 0 => chain[s] = <<>>
+    /\ \A l \in Listeners : Dead(l) => st[l] # "waiting"
+    /\ \A c \in Cbs : Dead(c) => st[c] \in {"new", "freed"}
+    /\ (~CoroMode /\ ~held) => \A l \in Coros : st[l] # "released"
 
 DisconnectPromisesCancel ==
-    [][(refs = 1 /\ refs' = 0) =>
-         \A l \in Coros : st[l] = "waiting" => due'[l] = Append(due[l], CANCEL) /\ st'[l] # "waiting"]_vars
+    [][\A s \in Sigs : (refs[s] = 1 /\ refs'[s] = 0) =>
+         \A l \in Coros : (st[l] = "waiting" /\ bind[l] = s) => due'[l] = Append(due[l], CANCEL) /\ st'[l] # "waiting"]_vars
 
 (* awaiting a disconnected emitter fails immediately with the same exception *)
 AwaitDisconnectedFails ==
-    [][\A l \in Coros : (Born /\ refs = 0 /\ st[l] \in {"new", "gate"} /\ <<st[l], received[l]>> # <<st'[l], received'[l]>>)
+    [][\A l \in Coros : (Born /\ Dead(l) /\ st[l] \in {"new", "gate"} /\ <<st[l], received[l]>> # <<st'[l], received'[l]>>)
           => /\ received'[l] = Append(received[l], CANCEL)
              /\ st'[l] \in {"gate", "done"}]_vars
 
+(* ... and awaiting an emitter of a live signal subscribes the listener to THAT signal, whatever the emitter
+   object was bound to and has seen before *)
+AwaitAliveSubscribes ==
+    [][\A l \in Coros : (~Dead(l) /\ st[l] \in {"new", "gate"} /\ st'[l] # st[l] /\ ~(l \in Hooked /\ st[l] = "new"))
+          => /\ st'[l] = "waiting" /\ received'[l] = received[l]
+             /\ chain'[bind[l]] = <<l>> \o chain[bind[l]]]_vars
+
+(* a re-bound emitter designates the signal of its source *)
+RebindFollowsSource ==
+    [][\A l \in Coros : bind'[l] # bind[l] =>
+          /\ st[l] \in {"new", "gate"} /\ st'[l] = st[l] /\ received'[l] = received[l]
+          /\ bind'[l] \in Sigs \cup {NOBIND}]_vars
+
 (* connected callback objects: one allocation per connect, destroyed exactly once and never used
-   afterwards; the number of live objects is the number of subscribed callbacks *)
+   afterwards; the number of live objects is the number of subscribed callbacks; a callback connected to an
+   object without state is destroyed at once and never called *)
 LiveCallbacks == Cardinality({c \in Cbs : st[c] = "waiting"})
 CallbacksFreed ==
     /\ [][\A c \in Cbs : /\ st[c] = "freed" => (st'[c] = "freed" /\ received'[c] = received[c])
-                         /\ st[c] = "waiting" => st'[c] \in {"waiting", "freed"}]_vars
+                         /\ st[c] = "waiting" => st'[c] \in {"waiting", "freed"}
+                         /\ (st[c] = "new" /\ st'[c] = "freed") => received'[c] = <<>>]_vars
 CallbackAnswers ==
     \A c \in Cbs : /\ c \in CbF => Len(received[c]) <= 1
                    /\ c \in CbOnce => Len(received[c]) <= 2
@@ -406,6 +505,8 @@ CallbackAnswers ==
                    /\ CANCEL \notin Range(received[c])
 
 (* the only terminal states are the fully drained ones (CHECK_DEADLOCK is off) *)
-NoStuckState == (~ ENABLED Next) => (refs = 0 /\ ~Pending /\ ~held /\ \A l \in Listeners : st[l] \notin {"waiting", "released"})
+NoStuckState == (~ ENABLED NextCore) => /\ \A s \in Sigs : refs[s] = 0
+                                        /\ ~Pending /\ ~held
+                                        /\ \A l \in Listeners : st[l] \notin {"waiting", "released"}
 
 =============================================================================
